@@ -40,6 +40,8 @@ TEMPLATES = [
     "def g(a):\n    a.append({P})\n    return a\ny = g([1])", "def g(a):\n    return g({P})\ny = g(1)", "def g(a):\n    return a + 1\ny = g({P})\nz = g([1, 2])",
     "ghost.on()\nx = {P}", "ghost.set_brightness({P})", "def mk():\n    inner = Led(3)\n    return 1\ndef use():\n    inner.on()\n    return {P}\nq = mk()",
     "from Reduino_pins import {P}", "from Reduinoconfig import PIN\nx = {P}", "from Reduino.Extras import thing\nx = {P}", "import Reduino_board\nx = {P}",
+    "a, b = {P},", "a, b = 1, {P}, 3", "a, b = ()\nx = {P}", "a, (b, c) = {P}, (2, 3)", "a, *b = 1, {P}", "x = y = {P}", "[a, b] = {P}, 2", "a, b = b, a = {P}, 1",
+    "x: int = {P}", "x, = {P},", "a = b = c, d = {P}, 2", "for a, b in {P}:\n    led.on()", "a, b = [{P}, 2]", "(a), (b) = {P}, 1", "items[0], a = {P}, 1",
     "x = 1 if {P} else 2", "try:\n    x = {P}\nexcept {P}:\n    x = 2", "items.append({P})", "x = -{P}", "x = not {P}", "x = 1 < {P} < 3",
 ]
 
